@@ -8,6 +8,7 @@
   head, `ε` = the generated criterion `calcErrorStopCritOcp` of the final (current) iterate.
 -/
 import Alpaqa.Proofs.OcpLoop
+import Alpaqa.Proofs.OcpLs
 
 namespace Alpaqa.Props.C06_Ocp
 open Alpaqa Alpaqa.Ocp Alpaqa.Gen
@@ -98,5 +99,175 @@ theorem ocp_unsupported_throws (P : Prob α) (pr : Params α) (c : Iterate α) :
 
 example : (PANOCStopCrit.ApproxKKT ∈ [PANOCStopCrit.ApproxKKT, .ApproxKKT2, .Ipopt, .LBFGSBpp]) := by
   decide
+
+/-! ### The no-progress counter: what it is
+
+`check_all_stop_conditions` receives `no_progress`; PANOC-OCP updates it after every *accepted* iteration
+with the generated statement `noProgressUpdate` on the flag `curr->xu == next->xu` (whole storage vectors:
+inputs and states).  Both iterates are observable: `curr` is the iterate handed to the progress callback
+of that iteration, `next` is the iterate handed to the following callback.  So the counter at the deciding
+check is `npRun` (`Props/C06`) of the "unchanged" flags of *consecutive callbacks* of the solve. -/
+
+/-- `curr->xu == next->xu` -/
+def sameIt (a b : Iterate α) : Bool := a.u == b.u && a.traj == b.traj
+
+/-- "iterate unchanged" flags between consecutive progress callbacks (oldest first) -/
+def cbFlags : List (Callback α) → List Bool
+  | a :: b :: rest => sameIt a.it b.it :: cbFlags (b :: rest)
+  | _ => []
+
+/-- the same flags for the callbacks so far (newest first) followed by the current iterate -/
+def flagsNF (cur : Iterate α) : List (Callback α) → List Bool
+  | [] => []
+  | cb :: rest => flagsNF cb.it rest ++ [sameIt cb.it cur]
+
+theorem cbFlags_snoc (l : List (Callback α)) (a b : Callback α) :
+    cbFlags (l ++ [a, b]) = cbFlags (l ++ [a]) ++ [sameIt a.it b.it] := by
+  induction l with
+  | nil => simp [cbFlags]
+  | cons x xs ih =>
+    cases xs with
+    | nil => simp [cbFlags]
+    | cons z zs =>
+      simp only [List.cons_append, cbFlags] at ih ⊢
+      rw [ih]
+
+theorem cbFlags_reverse (f : Callback α) (cbs : List (Callback α)) :
+    cbFlags ((f :: cbs).reverse) = flagsNF f.it cbs := by
+  induction cbs generalizing f with
+  | nil => simp [cbFlags, flagsNF]
+  | cons cb rest ih =>
+    have : (f :: cb :: rest).reverse = rest.reverse ++ [cb, f] := by simp
+    rw [this, cbFlags_snoc, flagsNF]
+    have h2 : rest.reverse ++ [cb] = (cb :: rest).reverse := by simp
+    rw [h2, ih]
+
+theorem flagsNF_length (cur : Iterate α) (cbs : List (Callback α)) :
+    (flagsNF cur cbs).length = cbs.length := by
+  induction cbs generalizing cur with
+  | nil => rfl
+  | cons cb rest ih => simp [flagsNF, ih]
+
+/-- the invariant: the counter is `npRun` of the flags seen so far, one flag per accepted iteration -/
+def NpInv (pr : Params α) (s : St α D) : Prop :=
+  s.noProgress = Props.C06.npRun pr.maxNoProgress 0 0 (flagsNF s.curr s.cbs) ∧ s.cbs.length = s.k
+
+theorem headStep_cbs' (P : Prob α) (pr : Params α) (stop : Nat → Bool) (oot : Bool) (s : St α D) :
+    (headStep P pr stop oot s).1.cbs = s.cbs := by
+  unfold headStep; simp only []; split <;> rfl
+
+theorem iterBody_np (O : Oracles α) (dir : Dir D α) (P : Prob α) (pr : Params α) (stop : Nat → Bool)
+    (s : St α D) (eps : α) (h : NpInv pr s) : NpInv pr (iterBody O dir P pr stop s eps).1 := by
+  unfold iterBody
+  simp only []
+  split_ifs
+  · exact h
+  · exact h
+  · unfold acceptStep NpInv
+    simp only [flagsNF, List.length_cons]
+    obtain ⟨h1, h2⟩ := h
+    refine ⟨?_, by rw [h2]⟩
+    rw [Props.C06.npRun_append_single, Nat.zero_add, flagsNF_length, h2, ← h1]
+    congr 1
+    unfold sameIt
+    rcases updateStage_fields dir pr s.curr
+      (lineSearch O dir P pr stop s.curr (directionStage dir P pr s).q (directionStage dir P pr s).tauInit
+        (decide (pr.gnInterval > 0) && ((s.k + 1) % pr.gnInterval == 0) && !pr.disableAccel) pr.lsFuel
+        { next := { s.next with gamma := s.curr.gamma, L := s.curr.L }, d := (directionStage dir P pr s).d,
+          tick := (directionStage dir P pr s).tick, tau := (directionStage dir P pr s).tauInit,
+          tauPrev := -1,
+          doGnStep := (decide (pr.gnInterval > 0) && ((s.k + 1) % pr.gnInterval == 0) && !pr.disableAccel)
+            || (s.doGnStep && pr.gnSticky),
+          lsBacktracks := 0, stepsizeBacktracks := 0 }).next _ _ (directionStage dir P pr s).didGn
+      with hu | hu <;> rw [hu]
+
+/-- What the counter is, for every result of the main loop that is an exit at a loop head. -/
+theorem mainLoop_np (O : Oracles α) (dir : Dir D α) (P : Prob α) (pr : Params α) (stop : Nat → Bool)
+    (oot : Bool) (u0 y mu errz0 : Vec α) (fuel : Nat) (s : St α D) (h : NpInv pr s) :
+    match (mainLoop O dir P pr stop oot u0 y mu errz0 fuel s).lastHead with
+    | none => True
+    | some hd =>
+      hd.2.2.2.1 = Props.C06.npRun pr.maxNoProgress 0 0
+        (cbFlags (mainLoop O dir P pr stop oot u0 y mu errz0 fuel s).callbacks) ∧
+      (cbFlags (mainLoop O dir P pr stop oot u0 y mu errz0 fuel s).callbacks).length = hd.2.2.1 ∧
+      hd.1 = (mainLoop O dir P pr stop oot u0 y mu errz0 fuel s).stats.eps ∧
+      hd.2.1 = (mainLoop O dir P pr stop oot u0 y mu errz0 fuel s).stats.status ∧
+      hd.2.2.1 = (mainLoop O dir P pr stop oot u0 y mu errz0 fuel s).stats.iterations ∧
+      hd.2.1 = statusChainOcp pr.tolerance pr.maxIter pr.maxNoProgress hd.2.2.1 hd.1 hd.2.2.2.1 oot
+        (stop hd.2.2.2.2) := by
+  induction fuel generalizing s with
+  | zero => simp [mainLoop, excResult]
+  | succ f ih =>
+    unfold mainLoop
+    have hc := headStep_curr P pr stop oot s
+    have hcb := headStep_cbs' P pr stop oot s
+    have hsnd := headStep_snd P pr stop oot s
+    have hh : NpInv pr (headStep P pr stop oot s).1 := by
+      unfold NpInv; rw [hc.1, hcb, hc.2.2.1, hc.2.2.2.2]; exact h
+    cases hes : (headStep P pr stop oot s).2 with
+    | none => simp [excResult]
+    | some es =>
+      simp only []
+      split_ifs
+      · simp only [exitBlock]
+        rw [cbFlags_reverse, flagsNF_length]
+        refine ⟨hh.1, hh.2, by first | rfl | trivial, by first | rfl | trivial, by first | rfl | trivial, ?_⟩
+        rw [hes] at hsnd
+        cases hep : epsOf P pr s.curr with
+        | none => rw [hep] at hsnd; simp at hsnd
+        | some e0 =>
+          rw [hep] at hsnd
+          simp only [Option.map_some, Option.some.injEq] at hsnd
+          rw [hc.2.2.1, hc.2.2.2.2, hc.2.2.2.1, hsnd]
+          rfl
+      · simp [excResult]
+      · exact ih _ (iterBody_np O dir P pr stop _ es.1 hh)
+
+/-- **The no-progress counter of a solve.**  For a solve that returned from a loop head (`lastHead`
+    records ε, status, `k`, the counter and the tick of that check): the counter handed to
+    `check_all_stop_conditions` is `npRun max_no_progress 0 0` of the flags "storage vector unchanged"
+    between *consecutive progress callbacks* (`cbFlags callbacks`, one per iteration), and the returned
+    status is the generated chain evaluated with that counter.  Hence (for `max_no_progress ≥ 1`, where the
+    generated update is the C++ statement) `NoProgress` is returned only after more than
+    `max_no_progress` consecutive trailing iterations whose reported iterates are all equal. -/
+theorem ocp_no_progress_counter (O : Oracles α) (dir : Dir D α) (P : Prob α) (d0 : D)
+    (pr : Params α) (stop : Nat → Bool) (oot : Bool) (u0 y mu errz0 gV gQ : Vec α) (gS e0 : α)
+    (eps : α) (status : SolverStatus) (k np tick : Nat)
+    (hl : (run O dir P d0 pr stop oot u0 y mu errz0 gV gQ gS e0).lastHead = some (eps, status, k, np, tick)) :
+    np = Props.C06.npRun pr.maxNoProgress 0 0
+      (cbFlags (run O dir P d0 pr stop oot u0 y mu errz0 gV gQ gS e0).callbacks) ∧
+    (cbFlags (run O dir P d0 pr stop oot u0 y mu errz0 gV gQ gS e0).callbacks).length = k ∧
+    (run O dir P d0 pr stop oot u0 y mu errz0 gV gQ gS e0).stats.iterations = k ∧
+    (run O dir P d0 pr stop oot u0 y mu errz0 gV gQ gS e0).stats.eps = eps ∧
+    (run O dir P d0 pr stop oot u0 y mu errz0 gV gQ gS e0).stats.status = status ∧
+    status = statusChainOcp pr.tolerance pr.maxIter pr.maxNoProgress k eps np oot (stop tick) ∧
+    (1 ≤ pr.maxNoProgress → status = .NoProgress →
+      pr.maxNoProgress < ((cbFlags (run O dir P d0 pr stop oot u0 y mu errz0 gV gQ gS e0).callbacks).reverse.takeWhile
+        (· = true)).length) := by
+  unfold run at hl ⊢
+  cases hi : initState O P d0 pr stop u0 gV gQ gS e0 with
+  | inl t => rw [hi] at hl; simp at hl
+  | inr s =>
+    simp only [hi] at hl ⊢
+    have hinit : NpInv pr s := by
+      unfold initState at hi
+      simp only [] at hi
+      split_ifs at hi
+      injection hi with hi
+      subst hi
+      exact ⟨by simp [flagsNF, Props.C06.npRun], rfl⟩
+    have hm := mainLoop_np O dir P pr stop oot u0 y mu errz0 (pr.maxIter + 2) s hinit
+    rw [hl] at hm
+    simp only [] at hm
+    obtain ⟨h1, h2, h3, h4, h5, h6⟩ := hm
+    refine ⟨h1, h2, h5.symm, h3.symm, h4.symm, h6, ?_⟩
+    intro hM hnp
+    rw [hnp] at h6
+    have hgt := Props.C06.noProgress_only_if pr.tolerance pr.maxIter pr.maxNoProgress k eps np oot
+      (stop tick) h6.symm
+    have hle := Props.C06.no_progress_counts_consecutive_guarded pr.maxNoProgress hM
+      (cbFlags (mainLoop O dir P pr stop oot u0 y mu errz0 (pr.maxIter + 2) s).callbacks) 0
+    rw [← h1] at hle
+    omega
 
 end Alpaqa.Props.C06_Ocp
